@@ -346,9 +346,12 @@ func (g *gen) selections(def *ast.Definition, depth int, sc *scope) string {
 	if abstract {
 		pts := append([]*ast.Definition{}, g.s.PossibleTypes[def.Name]...)
 		sort.Slice(pts, func(i, j int) bool { return pts[i].Name < pts[j].Name })
-		for _, pt := range pts {
-			if g.chance(55, "ptfrag") {
-				fragTypes = append(fragTypes, pt)
+		// often no type fragments at all: the interface's own fields, spread by the planner over the implementations
+		if def.Kind == ast.Union || !g.chance(40, "plainabstract") {
+			for _, pt := range pts {
+				if g.chance(55, "ptfrag") {
+					fragTypes = append(fragTypes, pt)
+				}
 			}
 		}
 	} else if g.o.Fragments && depth <= g.o.MaxDepth && g.chance(12, "selfinline") {
